@@ -60,11 +60,77 @@ def late_start_case(ch, r):
     return r
 
 
+def undrained_case(ch, r):
+    """The application does not read data_to_send() after every call: PINGs arrive in several receive_data calls,
+    output is read partially, possibly thrown away (clear_outbound_data_buffer), more PINGs arrive, a ping() is
+    made, the connection may die of a protocol error - and only then is the rest read.  Every PING reported since
+    the last clear is acknowledged exactly once, in order, in what the application ends up reading."""
+    from ..drive import make_conn, norm_event
+    client = ch.bool()
+    c = make_conn(client)
+    c.initiate_connection()
+    c.receive_data((b'' if client else wire.PREFACE) + wire.settings() + wire.settings(ack=True))
+    c.data_to_send()
+    seq = [0]
+
+    def pings(k):
+        ps = []
+        for _ in range(k):
+            seq[0] += 1
+            ps.append(b'pg' + bytes([seq[0], ch.u8(), 7, 7, 7, 7]))
+        evs = c.receive_data(b''.join(wire.ping(p) for p in ps))
+        got = [norm_event(e)[1] for e in evs if type(e).__name__ == 'PingReceived']
+        if got != ps:
+            r.violate('C26:ping-events-differ', 'want %r got %r' % (ps, got))
+        return ps
+
+    read = b''
+    owed = pings(ch.int(1, 3))
+    if ch.bool():
+        read += c.data_to_send(ch.pick([1, 9, 17, 20, 34]))
+        r.labels.add('partial-read')
+    cleared = ch.chance(100)
+    if cleared:
+        c.clear_outbound_data_buffer()
+        owed = []
+        read = b''
+        r.labels.add('cleared-in-between')
+    owed += pings(ch.int(1, 3))
+    mine = None
+    if ch.bool():
+        mine = b'mine' + bytes([ch.u8(), 1, 2, 3])
+        c.ping(mine)
+    died = None
+    if ch.chance(100):
+        try:
+            c.receive_data(ch.pick([wire.window_update(0, 0), wire.raw(wire.PING, 0, 0, b'short'),
+                                    wire.data(99, b'x'), wire.raw(wire.SETTINGS, 0, 0, b'\0')]))
+        except Exception as e:   # noqa: BLE001
+            died = type(e).__name__
+        r.labels.add('connection-error-before-the-read')
+    read += c.data_to_send()
+    # (a partial read followed by the rest concatenates to a sequence of whole frames again)
+    frames = wire.parse_all(read)[0]
+    acks = [f.f['data'] for f in frames if f.type == wire.PING and f.f.get('ack')]
+    r.step('undrained', 'client' if client else 'server', 'owed', len(owed), 'cleared', cleared, 'own ping',
+           mine is not None, 'died', died, 'acks read', len(acks))
+    if acks != owed:
+        r.violate('C26:acks-differ', 'want %r got %r (cleared=%r, died=%r)' % (
+            [p.hex() for p in owed], [a.hex() for a in acks], cleared, died))
+    if mine is not None and [f.f['data'] for f in frames if f.type == wire.PING and not f.f.get('ack')] != [mine]:
+        r.violate('C26:ping-call-not-emitted-once', read.hex()[:80])
+    r.nontrivial = len(owed) >= 2
+    r.labels.add('output-not-read-after-every-call')
+    return r
+
+
 def run_case(data):
     ch = Chooser(data)
     r = Result()
     if ch.chance(16):
         return late_start_case(ch, r)
+    if ch.chance(24):
+        return undrained_case(ch, r)
     client = ch.bool()
     s = Solo(client)
     s.start()
